@@ -247,6 +247,9 @@ func c20Register(ti, j int, nullable bool) {
 			}
 		}
 		avro.RegisterSchema(def.typ, lib)
+		// the value stays the caller's (one template edited and registered again for the
+		// next type of a family is ordinary use): what was registered must not follow it
+		scrambleLibSchema(&lib)
 	}
 	if c20SchemaFirst {
 		regSchema()
